@@ -22,7 +22,9 @@ EXPLANATION = (
     "exponential and the power cone the dual gradient and Hessian satisfy <grad, z> = -3 and H z = -grad, and the primal "
     "gradient map satisfies <g(s), s> = -3 on every path, as identities of rational functions in (z, alpha) and the opaque "
     "values of log / powf / the Newton and Wright-omega roots - a necessary condition of being the derivatives of a "
-    "3-logarithmically-homogeneous barrier resp. of its conjugate.")
+    "3-logarithmically-homogeneous barrier resp. of its conjugate; (R5) the power cone's membership tests, dual barrier, "
+    "gradient and Hessian have the parities that the symmetry s3 -> -s3 of the cone implies; (R6) unit_initialization "
+    "overwrites both of its vectors wholly on every path, so the start point does not depend on a previous solve.")
 ASSUMPTIONS = ['rustc MIR construction and trait resolution are correct',
                'R4: identities over the reals; log(a b) = log a + log b and omega + log omega = x for omega = wright_omega(x)']
 
@@ -408,3 +410,6 @@ def run(ctx, rep, tier):
         update_order(rep, F, E, tag)
         euler_identities(rep, F, E, tag)
         reflection_symmetry(rep, F, E, tag)
+        R6 = rep.rule('C14.R6', 'unit initialisation overwrites both vectors of every cone wholly (the documented start point is reached on every solve, not only the first)')
+        from . import c05
+        R6.guard(lambda: c05.unit_init_must_write(R6, F, tag))
